@@ -46,7 +46,7 @@ def build_steps(cfg, iso_name, kind, payload):
     return [[['add_symlink', {'symlink_path': '/' + iso_name, 'rr_symlink_name': payload[0], 'rr_path': payload[1]}]]]
 
 
-ORACLES = [oracles.oracle_rockridge, master.oracle_roundtrip]
+SWEEP_ORACLES = [oracles.oracle_rockridge, master.oracle_roundtrip]
 
 
 def extra_tasks(tier):
@@ -85,7 +85,7 @@ def extra_run(task):
     if task.get('deep'):
         for depth in range(1, task['maxdepth'] + 1):
             case = {'extra': True, 'cfg': cfg, 'steps': deep_steps(cfg, depth, task['reloc'], task.get('namelen', 0))}
-            status, viols, info = master.evaluate(case, ORACLES, res)
+            status, viols, info = master.evaluate(case, SWEEP_ORACLES, res)
             res.count('sweep_cases')
             if status in ('refused', 'crash'):
                 res.count('sweep_refused')
@@ -103,7 +103,7 @@ def extra_run(task):
                 if op[0] != 'rm_directory':
                     continue
                 case = {'extra': True, 'cfg': cfg, 'steps': steps}
-                status, viols, info = master.evaluate(case, ORACLES, res)
+                status, viols, info = master.evaluate(case, SWEEP_ORACLES, res)
                 res.count('sweep_cases')
                 if status in ('refused', 'crash'):
                     t, site = explore.exc_site(info['exc'])
@@ -115,7 +115,7 @@ def extra_run(task):
         return res
     for kind, payload in task['cases']:
         case = {'extra': True, 'cfg': cfg, 'steps': build_steps(cfg, task['iso_name'], kind, payload)}
-        status, viols, info = master.evaluate(case, ORACLES, res)
+        status, viols, info = master.evaluate(case, SWEEP_ORACLES, res)
         res.count('sweep_cases')
         if status == 'refused':
             res.count('sweep_refused')
@@ -131,7 +131,7 @@ def extra_run(task):
 
 
 def check_extra(case):
-    status, viols, info = master.evaluate(case, ORACLES)
+    status, viols, info = master.evaluate(case, SWEEP_ORACLES)
     if status == 'crash':
         t, site = explore.exc_site(info['exc'])
         return [{'clause': 'edit accepted or refused with the invalid-input error', 'cls': '%s@%s' % (t, site), 'msg': str(info['exc'])}]
